@@ -104,10 +104,10 @@ PROPS["C01"] = {
     "gen": ["Pyramid", "WalkWorker"],
     "trusted_base": ["the multiprocessing model of DESIGN.md §3 (as for C03); queue FIFO order is abstracted away in the proof model (a receive may take any item in the pipe), which over-approximates the real behaviours",
                      "a tile filter is a deterministic function of the tile's position",
-                     "termination of the parallel walk under fairness is observed on every explored schedule (hangs are detected by the simulator), not yet a theorem"],
+                     "liveness is proved in the form `from every reachable state some continuation returns` (C01Live.par_walk_progress, C01LiveRed.par_walk_live_*): no deadlock and no state from which termination has become impossible; that the operating system's scheduler is fair (so that the continuation is the one that happens) is assumed, and hangs of the real code are detected by the simulator's watchdog"],
     "assumptions": COMMON_ASSUME + ["callbacks do not raise (C19)"],
-    "partial": "termination under fairness (par_walk_progress) is checked by exploration only; the reducer / prologue refinement is proved for generic (sub-)pyramids, whole TOAST pyramids and TOAST sub-pyramids with an accepted ancestor line and a leaf (Props/Reducer, Props/C01Red); the degenerate nothing-to-do configurations are covered by differential execution only",
-    "props_files": ["C01", "Reducer", "C01Red"],
+    "partial": "the reducer / prologue refinement is proved for generic (sub-)pyramids, whole TOAST pyramids and TOAST sub-pyramids with an accepted ancestor line and a leaf (Props/Reducer, Props/C01Red); the degenerate nothing-to-do configurations are covered by differential execution only; scheduler fairness is an assumption of the liveness reading",
+    "props_files": ["C01", "Reducer", "C01Red", "C01Live", "C01LiveRed"],
 }
 
 PROPS["C19"] = {
@@ -210,8 +210,8 @@ LEVEL_TEXT = {
     },
     "C01": {
         "text": "Bit/slot formulas, the release test, the seeding level and the stop test of _walk_parallel are re-extracted each run. A phase-based transition system (every tile waiting / in the ready queue / held, running, finished in a worker / in the done queue / retired; dispatcher with 4-bit readiness masks) is proved, for every number of workers and every interleaving, to keep an invariant relating masks to retired children; corollaries: whenever a callback is about to start, the callbacks of all live non-leaf children have completed (also as an ordering statement on the callback log); callbacks start at most once and only for live non-leaf tiles of the sub-pyramid; when walk has returned all workers have exited and the set of started = completed callbacks is exactly the live non-leaf tiles. The real Pyramid.walk is run serially, under a deterministic scheduler (2-4 workers, biased random schedules) and with real processes on generated pyramids (all depth-1 filters, gappy filters, sub-pyramids); every simulated trace is replayed through the Lean transition function starting from the model's own prologue (its reduction iterator), and every callback log is checked against the property.",
-        "note": "trusted: Lean kernel; the multiprocessing semantics; simmp; fact extraction. Props/Reducer proves that the reduction iterator computes the bottom-up fold over the tree of yielded positions (no assertion trips, every node is shown exactly the values of its accepted children); Props/C01Red derives from it that the model's prologue delivers Cfg with ops = the positions of the serial walk, for generic (sub-)pyramids, whole (filtered) TOAST pyramids and TOAST sub-pyramids, and states the protocol theorems end to end (par_walk_generic, par_walk_toast, par_walk_toast_sub).",
-        "technique": "Lean 4 proof (inductive invariant over all interleavings) + trace refinement checked by execution",
+        "note": "trusted: Lean kernel; the multiprocessing semantics; simmp; fact extraction. Props/Reducer proves that the reduction iterator computes the bottom-up fold over the tree of yielded positions (no assertion trips, every node is shown exactly the values of its accepted children); Props/C01Red derives from it that the model's prologue delivers Cfg with ops = the positions of the serial walk, for generic (sub-)pyramids, whole (filtered) TOAST pyramids and TOAST sub-pyramids, and states the protocol theorems end to end (par_walk_generic, par_walk_toast, par_walk_toast_sub). Props/C01Live proves liveness (second invariant family + lexicographic measure: every reachable non-returned state has an enabled measure-decreasing transition, hence a continuation to `returned`), Props/C01LiveRed discharges its two side conditions for the real prologue (par_walk_live_generic / _toast / _toast_sub).",
+        "technique": "Lean 4 proof (inductive invariants over all interleavings, progress measure) + trace refinement checked by execution",
     },
     "C10": {
         "text": "The shape of update_image (lock wraps read → yield → write and nothing else; lock path from the default-format tile path; one format for read and write) is re-extracted each run. A transition system with one transition per lock/read/write step is proved, for any number of updaters and every interleaving, to keep an 8-clause invariant; corollaries: when all updaters are done the tile is stable and holds every contribution exactly once in lock-acquisition order (serialisability), no read ever observes a partially written tile, at most one updater is inside the region. The real update_image runs under a deterministic scheduler (random and bounded-exhaustive schedules, 2-4 updaters) with traced reads/writes; traces are replayed through the Lean model and the final tile content is checked; a real-process stress run.",
